@@ -212,3 +212,71 @@ Fixpoint T_F5a_from (r : sreg) (bs : list batch) : bool :=
       else T_F5a_from r bs'
   end.
 Definition T_F5a (bs : list batch) : bool := T_F5a_from [] bs.
+
+(* ---- batches arriving at the same time (hooks of different queues run in parallel) ----
+   The property text speaks of "sequences of batches from several hooks".  When several
+   executions hand in their batches concurrently, nothing fixes the order in which they
+   take effect, so the text is read as: the concurrent batches take effect as SOME
+   sequence (each batch as a whole, exactly once).  Observed: for every batch of the
+   round whether its execution failed (in the order the round lists them), and Gather()
+   after all of them have returned.
+     - an execution fails iff its batch has an invalid operation (no matter what the
+       others do);
+     - the registry shows what the reference registry holds after the round's batches
+       in one of their orders, applied to what the history before the round left; and
+       the batches that follow one after the other behave as the text says from there.
+   For batches over pairwise different groups every order gives the same grouped series
+   (C16_concurrent_order_independent), each group as its last batch gave it
+   (C16_last_batch_wins). *)
+Fixpoint linsert {A} (x : A) (l : list A) : list (list A) :=
+  match l with
+  | [] => [[x]]
+  | y :: r => (x :: l) :: map (cons y) (linsert x r)
+  end.
+Fixpoint lperms {A} (l : list A) : list (list A) :=
+  match l with
+  | [] => [[]]
+  | x :: r => flat_map (linsert x) (lperms r)
+  end.
+
+Definition spec_step (r : sreg) (b : batch) : sreg := fst (spec_batch r (fst b) (snd b)).
+Definition spec_final (bs : list batch) : sreg := fold_left spec_step bs [].
+
+Definition cobs := (list bool * list series)%type.      (* per batch of the round: failed?; Gather at the end *)
+
+(* after the round the history may go on (batches one after the other again, observed
+   after each): everything seen from the round on must fit ONE order of the round *)
+Definition P_conc (r0 : sreg) (round : list batch) (co : cobs) (after : list batch) (aos : obs) : bool :=
+  list_eqb Bool.eqb (fst co) (map (fun b => negb (forallb spec_valid (snd b))) round)
+  && existsb (fun il => let r := fold_left spec_step il r0 in
+                        same_series (snd co) (project r) && P_from r after aos) (lperms round).
+
+(* a case: a history of batches one after the other (observed after each), then one
+   round of concurrent batches (none = no round, and then nothing after it), then
+   batches one after the other again *)
+Definition P_case (bs : list batch) (os : obs) (round : list batch) (co : cobs) (after : list batch) (aos : obs) : bool :=
+  P bs os && match round, after with
+             | [], [] => true
+             | [], _ => false
+             | _, _ => P_conc (spec_final bs) round co after aos
+             end.
+
+(* the domain and the F5a trigger of a case: those of the history, the round in any of
+   its orders, and what follows (the domain does not depend on the order; a collision may) *)
+Definition in_domain_case (bs round after : list batch) : bool :=
+  forallb (fun il => in_domain (bs ++ il ++ after)) (lperms round).
+Definition T_F5a_case (bs round after : list batch) : bool :=
+  existsb (fun il => T_F5a (bs ++ il ++ after)) (lperms round).
+
+(* the last accepted batch of a history that mentions group g *)
+Definition touches (g : N) (b : batch) : bool := forallb spec_valid (snd b) && mem_N g (mentioned (snd b) []).
+Definition last_touch (g : N) (bs : list batch) : option batch := last (map Some (filter (touches g) bs)) None.
+(* what that batch gives the group: its operations for g, applied to nothing *)
+Definition group_view (g : N) (ob : option batch) : sreg :=
+  match ob with
+  | None => []
+  | Some (h, ops) => fold_left (spec_apply h) (in_group g ops) []
+  end.
+
+(* batches over pairwise different groups: no group is mentioned by two accepted batches *)
+Definition distinct_groups (bs : list batch) : Prop := forall g, (length (filter (touches g) bs) <= 1)%nat.
